@@ -195,6 +195,52 @@ let () =
         else if hyp && (me <> "o:" ^ filehex || le <> el || sp <> "o:" ^ filehex) then
           Printf.printf "MISMATCH %s file-encode C08_file_encode-conclusion-false-on-implementation\n" id
         else Printf.printf "OK %s%s\n" id (if hyp then " H" else "")
+      | ["Q"; id; cap; pre; perr; lr; mr] ->
+        (* MdatBox.EncodeSW of both boxes on a FixedSliceWriter of cap bytes holding pre bytes (and an earlier error) *)
+        (match !mm, !ml with
+         | Some m1, Some m2 ->
+           let cap = int_of_string cap and pre = int_of_string pre in
+           let w0 = { C08SwModel.sw_cap = n_of_int cap; C08SwModel.sw_out = L.init pre (fun _ -> n_of_int 90);
+                      C08SwModel.sw_err = (perr = "1") } in
+           let run m = let (ok, w) = C08SwModel.mdat_encode_sw m w0 in
+             Printf.sprintf "%s:%s:%s" (if ok then "o" else "e") (hex_of_bytes w.C08SwModel.sw_out) (b2s w.C08SwModel.sw_err) in
+           let a = run m2 and b = run m1 in
+           (* hypotheses of C08_lazy_encode_sw on the implementation's boxes, and its conclusion on the implementation's answers *)
+           let pl = if int_of_n m2.lazyDataSize > 0 then m2.lazyDataSize else n_of_int (L.length m1.coq_Data) in
+           let sp = m1.coq_StartPos and lg = m1.coq_LargeSize in
+           let hyp = perr = "0" && C08Spec.box_in_file !file sp lg pl && C08Spec.header_at !file sp lg pl in
+           let hl = int_of_n (C08Spec.hdr_len lg) in
+           let prefix = S.concat "" (L.init pre (fun _ -> "5a")) in
+           let starts_e s = S.length s > 0 && s.[0] = 'e' in
+           let concl () =
+             (if pre + hl <= cap then lr = "o:" ^ prefix ^ hex_of_bytes (sub !file sp (n_of_int hl)) ^ ":0" else starts_e lr)
+             && (if pre + hl + int_of_n pl <= cap then mr = "o:" ^ prefix ^ hex_of_bytes (sub !file sp (n_of_int (hl + int_of_n pl))) ^ ":0"
+                 else starts_e mr) in
+           if a <> lr || b <> mr then Printf.printf "MISMATCH %s encode-sw model_lazy=%s model_mem=%s\n" id a b
+           else if hyp && not (concl ()) then Printf.printf "MISMATCH %s encode-sw C08_lazy_encode_sw-conclusion-false-on-implementation\n" id
+           else Printf.printf "OK %s%s\n" id (if hyp then " H" else "")
+         | _ -> Printf.printf "MISMATCH %s encode-sw no-model-context\n" id)
+      | ["V"; id; filehex; z; orc; tops; cap; ms; ls] ->
+        (* File.EncodeSW of both decodings into a fresh FixedSliceWriter of cap bytes *)
+        let f = bytes_of_hex filehex in
+        let zf = (z = "1") in
+        let cap = int_of_string cap in
+        let fuel = nat_of_int (L.length f / 8 + 4) in
+        let r () = { rpos = n_of_int 0; rorc = orc_of orc } in
+        let run lz = match decode_file_top fuel lz f zf (n_of_int 0) (r ()) with
+          | Base.Ok t ->
+            let (ok, w) = C08SwModel.encode_tops_sw f t (C08SwModel.sw_new (n_of_int cap)) in
+            if ok then "o:" ^ hex_of_bytes w.C08SwModel.sw_out else "e"
+          | Base.Err -> "e" | Base.Panic -> "p" | Base.OutOfFuel -> "FUEL" in
+        let a = run false and b = run true in
+        let hyp = tops <> "-" && C08Spec.layout_at f (n_of_int 0) (parse_tops tops) in
+        let concl () =
+          let el = C08EncModel.elide f (n_of_int 0) (parse_tops tops) in
+          (if L.length f <= cap then ms = "o:" ^ filehex else ms = "e")
+          && (if L.length el <= cap then ls = "o:" ^ hex_of_bytes el else ls = "e") in
+        if a <> ms || b <> ls then Printf.printf "MISMATCH %s file-encode-sw model_mem=%s model_lazy=%s\n" id a b
+        else if hyp && not (concl ()) then Printf.printf "MISMATCH %s file-encode-sw C08_file_encode_sw-conclusion-false-on-implementation\n" id
+        else Printf.printf "OK %s%s\n" id (if hyp then " H" else "")
       | ["P"; id; sizes; uni; offs; a; b; chunks; segs] ->
         (* positions only (sparse file beyond 4 GiB): the (offset,size) the chunk loop computes per chunk *)
         let t = { sample_sizes = L.map n_of_int (ints_of_csv sizes); uniform_size = n_of_int (int_of_string uni);
